@@ -4,15 +4,23 @@ Implementation side (real pylife, in-process), generators, correspondence lines 
 property oracle (closed forms written here independently of both the code and the Lean model).
 
 Case kinds
-  cyc  one diagram (FKM-Goodman with or without M2 | five-segment | from_dict), a frame of cycles (range/mean or
+  cyc  one diagram (FKM-Goodman with or without M2 | five-segment | from_dict, the latter in every admissible listing
+       order of its segments = the rotations of the ascending order, C12.rotations), a frame of cycles (range/mean or
        from/to), 1-2 successive targets, through HaighDiagram.transform (+ plain functions / accessors in the oracle)
   frm  per-element parameter FRAME with different rows (Goodman / five-segment incl. different R12/R23) and a collective
        whose index carries the element key (named index, (key, cycle_number) MultiIndex in any level order, unsorted
-       rows, two-level keys) through df.meanstress_transform.*; compared label by label
+       rows, two-level keys) through df.meanstress_transform.*; compared label by label.  Optional fields: `surplus`
+       = parameter rows no cycle refers to (ignored by the code, same result demanded), `drop` = the parameter row of
+       one key removed (refused with ValueError 'No Haigh diagram' since /repo 226f5ce; oracle only, no model line)
   mat  rainflow matrix (from/to or range/mean classes, 0-2 further index levels in ANY level order, rows optionally
        sparse / shuffled, uniform or non-uniform class widths) through series.meanstress_transform.fkm_goodman with a
        parameter Series, a per-key parameter frame (different rows), a frame over a subset of the further levels or a
-       frame that brings a level of its own; class sums compared per key of the further levels
+       frame that brings a level of its own; class sums compared per key of the further levels.  A per-key frame may
+       carry a surplus row (key 99, ignored) or lack the row of a key (mat_missing: refused like 'frm', oracle only)
+
+In the oracle's comparison histogram route vs plain function (one clause of `oracle_mat`) the noise-amplitude classes
+- amplitude <= 1e-9 * max(|mean| of the class, largest range and largest |mean| of the key's classes) - are left out
+and counted in stats['noise_amplitude_classes']; every other clause still covers them.
 """
 import itertools
 import json
@@ -475,22 +483,28 @@ class C12(Prop):
         "PylifeVerif.C12.fiveSegment_monotone_continuous_fixed_mean": _CUT,
         "PylifeVerif.C12.goodman_closed_form_monotone_continuous":
             "about the closed form eqAmp; the code's result is goodmanClosed = eqAmp / backFactor g (goodman_eq_closed_form), i.e. eqAmp "
-            "divided by a constant that is positive for a fixed target, so monotony and continuity carry over; needs M2 <= M; 'interfaces agree' has no theorem: "
+            "divided by a constant that is positive for a fixed target, so monotony and continuity carry over; needs M2 <= M; the fixed-mean "
+            "statement about `transform` itself follows from transform_monotone_continuous_fixed_mean_std + goodman_std + goodman_guard but is "
+            "not stated as one theorem; 'interfaces agree' has no theorem: "
             "the interfaces are pandas glue around the one modelled function and are compared by the correspondence / oracle only",
     }
-    RULE = ("case 'cyc' = (diagram: FKM-Goodman M[,M2 - default M/3] | five-segment 7 parameters | from_dict segments; interface range/mean or "
+    RULE = ("case 'cyc' = (diagram: FKM-Goodman M[,M2 - default M/3] | five-segment 7 parameters | from_dict segments in every admissible "
+            "listing order (the rotations of the ascending order); interface range/mean or "
             "from/to frame incl. upper load -0.0; 1 or 2 successive targets incl. -inf and R > 1; cycles incl. those on every segment border, at "
             "R = -inf, amplitudes 1e-6..1e6, targets R down to 1+1e-3 (cycles reach R of about 1.002) and mean/amplitude up to 1e6): model and HaighDiagram.transform must give "
             "bit-identical range/mean/amplitude for every cycle; "
             "case 'frm' = collective whose index carries an element key (named index | (key, cycle_number) in any level order | unsorted rows | "
             "two-level keys) + parameter FRAME with a different row per key (Goodman with/without M2, five-segment with different R12/R23) "
             "through df.meanstress_transform.*: every result row, found by its label, must be bit-identical to the model run with that key's parameters; "
+            "'frm' / 'mat' cases may carry surplus parameter rows no cycle refers to (ignored: same demand) or lack the row of a key (no model "
+            "line; oracle only: refused with ValueError 'No Haigh diagram', /repo 226f5ce); "
             "case 'mat' = rainflow matrix (from/to or range/mean classes, 0-2 further levels in any level order, sparse / shuffled rows, "
             "non-uniform widths; parameter Series | per-key frame with different rows | frame over a subset of the levels | frame with a level "
             "of its own) through series.meanstress_transform.fkm_goodman: same number of classes and bit-identical class sums PER KEY of the "
             "further levels. Oracle on the real code alone: = textbook Goodman closed form, = segment-walk along iso-damage lines (any diagram), "
             "idempotence, fixed target, path independence, monotone + continuous in amplitude, plain function = collective accessor "
-            "(Series and per-row DataFrame parameters, per key) = histogram accessor, matrix total and per-key totals conserved, class sums = the "
+            "(Series and per-row DataFrame parameters, per key) = histogram accessor (in the matrix oracle this one comparison leaves out the "
+            "noise-amplitude classes: amplitude <= 1e-9 * max(|mean|, largest range / |mean| of the key)), matrix total and per-key totals conserved, class sums = the "
             "cycles transformed one by one with their key's parameters, operands (collective, matrix, parameter frame) unchanged.  Gates on 'cyc' "
             "cases: the clause plain function = collective accessor / operands unchanged runs on every 2nd case and on every default-M2 Goodman "
             "case (and on the every-4th cases below); monotone + continuous in amplitude and the histogram accessor run on every 4th case.")
